@@ -420,5 +420,211 @@ theorem relex_step_keep (hhead : HeadOk env.tbl L = true) (hrel : RelexOk env.tb
           | gotoDyn => simp [htr] at hs''
           | reconsume _ => simp [htr] at hs''
 
+
+theorem head_first_byte {H : Bytes} (h : shapeB .name H = true) : H[0]? = some 60 ∧ ([60] : Bytes) <+: H := by
+  obtain ⟨_, hw⟩ := shape_name h
+  rw [hw]
+  split <;> exact ⟨rfl, ⟨_, rfl⟩⟩
+
+/-- **the `<`**: from the text state of the bookmark the lexer goes, silently, to the first head state -/
+theorem relex_step0 (hhead : HeadOk env.tbl L = true) (hrel : RelexOk env.tbl L TT S = true)
+    {G : RG} (hG : RGOk env.tbl L S G) {c : Common} {l : LexRegs} {x : Ctx κ}
+    (h : RelexHead env.tbl L G inp c l []) :
+    ∃ c', stateFn env inp (⟨c, .lexer l, x⟩ : M κ) = (⟨c', .lexer l, x⟩, none) ∧
+      RelexHead env.tbl L G inp c' l [60] ∧ c'.isLast = c.isLast := by
+  have hlt := h.st0 rfl
+  have hpos : l.lexemeStart = c.nextPos := by simpa using h.pos
+  obtain ⟨hH0, hHpre⟩ := head_first_byte hG.shape
+  have hinb : inp[c.nextPos]? = some 60 := by
+    have := input_byte (k := 0) h.pre (by rw [List.getElem?_append_left (by
+      have := shape_name_len hG.shape; omega)]; exact hH0)
+    simpa [hpos] using this
+  -- decode `ltOf`
+  unfold ltOf at hlt
+  cases hsd : env.tbl.state? c.state with
+  | none => simp [hsd] at hlt
+  | some sd =>
+    simp only [hsd] at hlt
+    split at hlt
+    · rename_i hcond
+      simp only [Bool.and_eq_true, List.isEmpty_iff, Bool.not_eq_true', Bool.or_eq_true, Option.isNone_iff_eq_none,
+        beq_iff_eq, List.all_eq_true, bne_iff_ne, ne_eq] at hcond
+      obtain ⟨⟨⟨he, hsq⟩, hmem⟩, hcq⟩ := hcond
+      cases harm : findArm env.tbl c0 (some 60) sd.arms with
+      | none => simp [harm] at hlt
+      | some arm =>
+        obtain ⟨pat, body⟩ := arm
+        cases body with
+        | ite _ _ _ => simp [harm] at hlt
+        | seq q =>
+          simp only [harm] at hlt
+          split at hlt
+          · rename_i hq
+            simp only [Bool.and_eq_true, beq_iff_eq] at hq
+            obtain ⟨hmark, hsil⟩ := hq
+            cases htr : q.trans with
+            | none => simp [htr] at hlt
+            | some tr =>
+              cases tr with
+              | gotoDyn => simp [htr] at hlt
+              | reconsume _ => simp [htr] at hlt
+              | goto j =>
+                simp only [htr, Option.some.injEq] at hlt
+                subst hlt
+                have hf : findArm env.tbl { c with nextPos := c.nextPos + 1 } (some 60) sd.arms = some ⟨pat, .seq q⟩ := by
+                  rw [findArm_c0 (c := { c with nextPos := c.nextPos + 1 }) 60 sd.arms hcq]; exact harm
+                have hstep : stateFn env inp (⟨c, .lexer l, x⟩ : M κ) =
+                    ((runBody env inp (.seq q) { (⟨c, .lexer l, x⟩ : M κ) with c := { c with nextPos := c.nextPos + 1 } }).1,
+                     (runBody env inp (.seq q) { (⟨c, .lexer l, x⟩ : M κ) with c := { c with nextPos := c.nextPos + 1 } }).2.1) := by
+                  rcases hmem with hm | hm
+                  · exact stateFn_plain_byte (m := (⟨c, .lexer l, x⟩ : M κ)) hsd he hm hsq hinb hf
+                  · exact stateFn_memchr_lt (m := (⟨c, .lexer l, x⟩ : M κ)) hsd he hm hsq hinb hf
+                rw [hstep]
+                simp only [runBody]
+                unfold runSeq
+                rw [runCalls_silentMark q.calls hsil _ l x (by simp [Common.pos, hpos])]
+                simp only [htr, applyTrans]
+                -- the label of the first head state
+                have hlabj : L.at G.s1 = some .lt := by
+                  have hstok := HeadOk_state hhead hsd
+                  cases hlT : L.at c.state with
+                  | some ph =>
+                    obtain ⟨_, _, hk⟩ := head_arm_facts (c := { c with nextPos := c.nextPos + 1 }) hstok hlT hf
+                    have := hk q (by simp [Body.seqs])
+                    simp [seqKeepOk, hmark] at this
+                  | none =>
+                    simp only [stateOk, hlT, Bool.and_eq_true, plainStateOk, List.all_eq_true] at hstok
+                    have := hstok.2 ⟨pat, .seq q⟩ (findArm_sel hf).1 q (by simp [Body.seqs])
+                    simp only [markSeqOk, hmark, bne_self_eq_false, Bool.false_or, Bool.and_eq_true, htr, beq_iff_eq] at this
+                    exact this.2
+                refine ⟨_, rfl, ⟨h.l0, h.pre, hHpre, by simp only [List.length_singleton]; omega, fun hn => by simp at hn, fun _ => ?_⟩, rfl⟩
+                exact ⟨rfl, .lt, hlabj, rfl, fun hn => by cases hn⟩
+          · simp at hlt
+    · simp at hlt
+
+
+/-- the tag token after `finish_tag_name` of the re-lexed tag is the hinted one: same kind, same
+name hash, name range = the name bytes of the head -/
+structure RelexTag (G : RG) (l : LexRegs) : Prop where
+  tag : ∃ tok, l.curTag = some tok ∧ tagKey tok = headKey G.H ∧
+    tok.name = ⟨l.lexemeStart + G.H.length - (headName G.H).length, l.lexemeStart + G.H.length⟩
+
+theorem prefix_eq_of_length {w H : Bytes} (h : w <+: H) (hl : w.length = H.length) : w = H := by
+  obtain ⟨r, hr⟩ := h
+  have : r = [] := by
+    have := congrArg List.length hr
+    simp at this
+    cases r with
+    | nil => rfl
+    | cons _ _ => simp at this; omega
+  subst this
+  simpa using hr
+
+theorem shape_name_phase {ph : Phase} {w : Bytes} (h1 : shapeB ph w = true) (h2 : shapeB .name w = true) : ph = .name := by
+  have hl := shape_name_len h2
+  obtain ⟨hn, hw⟩ := shape_name h2
+  cases ph with
+  | name => rfl
+  | lt => have := shape_lt h1; subst this; simp at hl
+  | slash =>
+    have := shape_slash h1
+    subst this
+    simp [headName, nameOk] at hn
+
+theorem setTagName_name (t : TagOutline) (r : Range) : (setTagName t r).name = r := by
+  cases t <;> rfl
+
+/-- **the terminator**: the lexer runs `finish_tag_name` here, on a tag token of the hinted kind and
+hash; the rest of the arm (`emit_tag`, if any, and the transition) follows -/
+theorem relex_step_fin (hrel : RelexOk env.tbl L TT S = true)
+    {G : RG} (hG : RGOk env.tbl L S G) {c : Common} {l : LexRegs} {x : Ctx κ}
+    (h : RelexHead env.tbl L G inp c l G.H) :
+    (∃ e, (stateFn env inp (⟨c, .lexer l, x⟩ : M κ)).2 = some (.err e) ∧
+      (stateFn env inp (⟨c, .lexer l, x⟩ : M κ)).1.x = x) ∨
+    (∃ (l1 : LexRegs) (q : ActSeq) (A' : Arm), selArm env.tbl G.sfin G.term = some A' ∧ q ∈ A'.body.seqs ∧
+      finishCalls q.calls = true ∧ c.state = G.sfin ∧
+      RelexTag G l1 ∧ l1.fd = l.fd ∧ l1.lexemeStart = l.lexemeStart ∧
+      stateFn env inp (⟨c, .lexer l, x⟩ : M κ) =
+        ((runSeq env inp ⟨q.calls.tail, q.trans⟩ (⟨{ c with nextPos := c.nextPos + 1 }, .lexer l1, x⟩ : M κ)).1,
+         (runSeq env inp ⟨q.calls.tail, q.trans⟩ (⟨{ c with nextPos := c.nextPos + 1 }, .lexer l1, x⟩ : M κ)).2.1)) := by
+  have hne : G.H ≠ [] := shape_ne_nil hG.shape
+  obtain ⟨hst, ph, hlab, hshape, hsem⟩ := h.st hne
+  have hph : ph = .name := shape_name_phase hshape hG.shape
+  subst hph
+  obtain ⟨⟨tok, htok, hkey⟩, hstart⟩ := hsem rfl
+  -- the state is `sfin`
+  have hsf : c.state = G.sfin := by
+    have := hG.path; rw [hst] at this; simpa using this
+  -- lexer-side facts
+  obtain ⟨s0, hs0, hside⟩ := hG.img G.H.tail.length (Nat.le_refl _)
+  rw [List.take_length, hst] at hs0
+  simp only [Option.some.injEq] at hs0
+  subst hs0
+  obtain ⟨sd', ph0, hsd', he, hm, hsq, hcq, _, _⟩ := lexSide_facts hrel hside
+  -- the byte
+  have hinb : inp[c.nextPos]? = some G.term := by
+    rw [← h.pos]
+    apply input_byte h.pre
+    simp
+  obtain ⟨A', hsel, hfin⟩ := hG.fin
+  rw [← hsf] at hsel
+  simp only [selArm, hsd'] at hsel
+  have hf : findArm env.tbl { c with nextPos := c.nextPos + 1 } (some G.term) sd'.arms = some A' := by
+    rw [findArm_c0 (c := { c with nextPos := c.nextPos + 1 }) G.term sd'.arms hcq]; exact hsel
+  rw [stateFn_plain_byte (m := (⟨c, .lexer l, x⟩ : M κ)) hsd' he hm hsq hinb hf]
+  have hselG : selArm env.tbl G.sfin G.term = some A' := by rw [← hsf]; simp only [selArm, hsd']; exact hsel
+  -- running a finishing list
+  have hrunfin : ∀ q, finishCalls q.calls = true → q ∈ A'.body.seqs →
+      ∃ l1, RelexTag G l1 ∧ l1.fd = l.fd ∧ l1.lexemeStart = l.lexemeStart ∧
+        runSeq env inp q (⟨{ c with nextPos := c.nextPos + 1 }, .lexer l, x⟩ : M κ) =
+          runSeq env inp ⟨q.calls.tail, q.trans⟩ (⟨{ c with nextPos := c.nextPos + 1 }, .lexer l1, x⟩ : M κ) := by
+    intro q hfc hq
+    obtain ⟨rest, hc⟩ : ∃ rest, q.calls = ⟨.finishTagName, true⟩ :: rest := by
+      rcases finishCalls_cases hfc with h' | h' <;> exact ⟨_, h'⟩
+    refine ⟨{ l with curTag := some (setTagName tok (tokenPartRange { c with nextPos := c.nextPos + 1 } l)) }, ⟨⟨_, rfl, ?_, ?_⟩⟩, rfl, rfl, ?_⟩
+    · rw [tagKey_setTagName]; exact hkey
+    · rw [setTagName_name]
+      simp only [tokenPartRange, Nat.add_sub_cancel]
+      have := h.pos
+      congr 1 <;> omega
+    · unfold runSeq
+      rw [hc, runCalls_cons_q _ _ _ rfl]
+      simp [act, lexAct, htok]
+  cases hbody : A'.body with
+  | seq q =>
+    rw [hbody] at hfin
+    simp only at hfin
+    right
+    obtain ⟨l1, r1, r2, r3, r4⟩ := hrunfin q hfin (by simp [hbody, Body.seqs])
+    refine ⟨l1, q, A', hselG, by simp [hbody, Body.seqs], hfin, hsf, r1, r2, r3, ?_⟩
+    simp only [runBody]
+    rw [r4]
+  | ite cnd xq yq =>
+    rw [hbody] at hfin
+    simp only at hfin
+    obtain ⟨hc, hbr⟩ := hfin
+    subst hc
+    cases tok with
+    | startTag n hh ns as sc =>
+      -- the lexer's assertion fires: `is_appropriate_end_tag` on a start tag
+      left
+      simp [runBody, cond, htok]
+    | endTag n hh =>
+      right
+      have hK : (headKey G.H).1 = false := by rw [← hkey]; rfl
+      have hK2 : (headKey G.H).2 = hh := by rw [← hkey]; rfl
+      have hbr' := hbr hK
+      have hcond : cond .isAppropriateEndTag (⟨{ c with nextPos := c.nextPos + 1 }, .lexer l, x⟩ : M κ) = some (G.L0 == (headKey G.H).2) := by
+        simp [cond, htok, h.l0, hK2]
+      have hqsel : (if G.L0 == (headKey G.H).2 then xq else yq) ∈ A'.body.seqs := by
+        rw [hbody]; cases G.L0 == (headKey G.H).2 <;> simp [Body.seqs]
+      obtain ⟨l1, r1, r2, r3, r4⟩ := hrunfin _ hbr' hqsel
+      refine ⟨l1, _, A', hselG, hqsel, hbr', hsf, r1, r2, r3, ?_⟩
+      have : runBody env inp (.ite .isAppropriateEndTag xq yq) (⟨{ c with nextPos := c.nextPos + 1 }, .lexer l, x⟩ : M κ) =
+          runSeq env inp (if G.L0 == (headKey G.H).2 then xq else yq) (⟨{ c with nextPos := c.nextPos + 1 }, .lexer l, x⟩ : M κ) := by
+        simp only [runBody, hcond]
+        cases G.L0 == (headKey G.H).2 <;> rfl
+      rw [this, r4]
+
 end
 end LolHtml.Model
